@@ -4,7 +4,7 @@ public API calls.
 
 config  {"arms": [...], "lp": [name, kwargs], "np": [name, kwargs] | None,
          "seed": int, "n_jobs": int, "backend": str | None}
-op      ["fit", D, R, X|None] | ["partial_fit", D, R, X|None] | ["add_arm", a] |
+op      ["fit", D, R, X|None(, {"r": dtype})] | ["partial_fit", D, R, X|None(, {"r": dtype})] | ["add_arm", a] |
         ["add_arm", a, binarizer-name] | ["remove_arm", a] | ["warm_start", {arm: feats}, q] |
         ["predict", Q|None] | ["predict_expectations", Q|None]
 """
@@ -89,6 +89,8 @@ def apply(mab, op, count=True):
     if kind in ("fit", "partial_fit"):
         d, r = _fresh(op[1]), _fresh(op[2])
         x = _fresh(op[3]) if len(op) > 3 and op[3] is not None else None
+        if len(op) > 4 and op[4] and op[4].get("r"):
+            r = np.asarray(r, dtype=op[4]["r"])              # rewards handed over as an array of the named dtype
         if x is None:
             return getattr(mab, kind)(d, r)
         return getattr(mab, kind)(d, r, x)
